@@ -1081,3 +1081,19 @@ def _size_delta_round(repo, ob, failure):
 
 
 GENERATORS.insert(0, ("C09.delta.", _size_delta_round))
+
+
+def _limits_in_specs(repo, ob, failure):
+    """a configured limit that is exceeded rejects the document, also inside <specs>"""
+    cases = [('<svg><specs><loop count="2000" loop-var="i"><var n="$i"/></loop></specs><text text="n=$n"/></svg>', ()),
+             ('<svg><specs><var v="123456"/></specs><rect wh="1"/></svg>', ("--var-limit", "5")),
+             ('<svg><specs>' + '<g>' * 8 + '<rect wh="1"/>' + '</g>' * 8 + '</specs><rect wh="1"/></svg>', ("--depth-limit", "4"))]
+    for doc, args in cases:
+        r = run_svgdx(repo, doc, args=args)
+        if r["rc"] == 0:
+            return {"input": doc[:200], "input_full": doc, "args": list(args), "observed": "accepted (exit 0): " + r["out"].split("</style>")[-1][:120], "expected": "rejected with the limit error"}
+    return None
+
+
+GENERATORS.insert(0, ("C17.limit.propagated", _limits_in_specs))
+GENERATORS.insert(0, ("C17.limit.final", _limits_in_specs))
